@@ -1,599 +1,31 @@
-import DK.Model.Constraints
-import DK.Gen.Vec
-import DK.Lemmas.Sum
-import DK.Lemmas.Bridge
-import Mathlib.Tactic.Ring
-import Mathlib.Tactic.FieldSimp
-import Mathlib.Tactic.Linarith
+import DK.Lemmas.BridgeVec.Tactics
+import DK.Lemmas.BridgeVec.Utils
+import DK.Lemmas.BridgeVec.Device
+import DK.Lemmas.BridgeVec.CDevice
+import DK.Lemmas.BridgeVec.SDevice
+import DK.Lemmas.BridgeVec.SDeviceCost
+import DK.Lemmas.BridgeVec.SDeviceCons
+import DK.Lemmas.BridgeVec.DeviceCons
+import DK.Lemmas.BridgeVec.Kernels
+import DK.Lemmas.BridgeVec.IDevice
+import DK.Lemmas.BridgeVec.TDevice
+import DK.Lemmas.BridgeVec.TDeviceCost
+import DK.Lemmas.BridgeVec.Fn
+import DK.Lemmas.BridgeVec.GDevice
+import DK.Lemmas.BridgeVec.CDevice2
 /-!
 # BridgeVec (tie T1v): the generated translation of the *vector* method bodies equals the model
 
-`DK.Gen.*` of `DK/Gen/Vec.lean` is regenerated from `/repo/device_kit/*.py` by `vk/translate_vec.py` on every check
-run.  Each lemma below states that a generated definition equals — pointwise, for every horizon `n`, every parameter
-and every flow — the hand-written model definition of `DK/Model/{Leaf,Constraints,Fn}.lean` that the property theorems
-are about, and must still go through after regeneration.  The proofs unfold the generated body, rewrite calls of other
-generated units with *their* bridge lemma, and close the remaining identity of real-number expressions with
-`ring` / `field_simp` / case splits on the `if`s (index conditions by `omega`): an algebraically equivalent rewrite of
-the Python source keeps them provable, a semantic change (sign, dropped term or factor, shifted slice) does not.
+`DK/Gen/Vec/<Group>.lean` is regenerated from `/repo/device_kit/*.py` by `vk/translate_vec.py` on every check run, one
+module per source group.  `DK/Lemmas/BridgeVec/<Group>.lean` proves each generated definition equal — pointwise, for
+every horizon `n`, every parameter and every flow — to the hand-written model definition of
+`DK/Model/{Leaf,Constraints,Fn}.lean` that the property theorems are about; lemma names are `DK.BridgeVec.<unit>`.
+The proofs unfold the generated body, rewrite calls of other generated units with *their* bridge lemma, and close the
+remaining identity of real-number expressions with `ring1` / `field_simp` / case splits on the `if`s (index conditions
+by `omega`): an algebraically equivalent rewrite of the Python source keeps them provable, a semantic change (sign,
+dropped term or factor, shifted slice) does not.
+
+The split limits the blast radius: a changed or untranslatable unit breaks only the module of its group and the groups
+that call it (import graph = call graph of the Python units); `vk/check.py` builds and audits, per property, only the
+modules that prove the lemmas of its `bridge` list.  This file just imports every group (built by `DK/Props/All.lean`).
 -/
-set_option linter.unusedSimpArgs false
-set_option linter.unnecessarySeqFocus false
-set_option linter.unusedTactic false
-set_option linter.unreachableTactic false
-set_option linter.unusedVariables false
-set_option linter.unusedSectionVars false
-namespace DK.BridgeVec
-open DK
-
-/-- closes an identity of field expressions -/
-macro "vclose" : tactic =>
-  `(tactic| first | rfl | ring1 | (field_simp; done) | (field_simp; ring1) | (simp; done) | (simp; ring1) | (ring_nf; done) | (simp only [sumTo_eq_sum, mul_comm, mul_left_comm, mul_assoc] <;> ring1))
-
-/-- close whatever is left (nothing, if the rewriting already closed the goal); an open goal is an error -/
-macro "vdone" : tactic => `(tactic| all_goals (try vclose))
-
-/-- case split on every `if`, then close each branch as an identity or refute its index / order conditions -/
-macro "vsplit" : tactic =>
-  `(tactic| all_goals (try first | vclose | (split_ifs <;> first | vclose | (exfalso; omega) | (exfalso; linarith) | (simp_all; done) | (simp_all; ring1))))
-
--- two sums over the same range with pointwise equal summands (the index is `k`)
-set_option hygiene false in
-macro "vsum" : tactic => `(tactic| try (apply sumTo_congr; intro k _))
-
-/-! ## numpy primitives of the prelude -/
-
-theorem sgnPow_eq (e y : ℝ) : Gen.sgnPow e y = effPow e y := rfl
-
-theorem minimum_zero (x : ℝ) : Gen.minimum x 0 = minZero x := by
-  unfold Gen.minimum minZero
-  split_ifs <;> linarith
-
-/-! ## utils.py -/
-
-theorem utils_power_matrix (l i j : ℕ) : Gen.utils_power_matrix l i j = i - j := by
-  unfold Gen.utils_power_matrix
-  induction i with
-  | zero => simp [sumTo]
-  | succ i ih =>
-    rw [sumTo, ih]
-    split_ifs <;> omega
-
-theorem npow_one (k : ℕ) : npow (1 : ℝ) k = 1 := by simp
-
-theorem utils_sustainment_matrix (s : ℝ) (l i j : ℕ) : Gen.utils_sustainment_matrix s l i j = susW s i j := by
-  unfold Gen.utils_sustainment_matrix susW
-  simp only [utils_power_matrix]
-  by_cases h : s = 1
-  · subst h; simp only [if_true, npow_one]
-  · simp only [h, if_false]
-
-theorem utils_base_soc (b s : ℝ) (l i : ℕ) : Gen.utils_base_soc b s l i = baseSoc b s i := by
-  unfold Gen.utils_base_soc baseSoc
-  simp only [npow_eq_pow]
-  vdone
-
-theorem utils_soc (n : ℕ) (r : ℕ → ℝ) (s e : ℝ) (i : ℕ) : Gen.utils_soc n r s e i = soc s e r i := by
-  unfold Gen.utils_soc soc
-  vsum
-  simp only [utils_sustainment_matrix, sgnPow_eq]
-  vdone
-
-/-! ## Device / CDevice: the price terms (C08) and the linear cost -/
-
-theorem Device_cost (n : ℕ) (s p : ℕ → ℝ) : Gen.Device_cost n s p = deviceCost n s p := by
-  unfold Gen.Device_cost deviceCost priceTerm
-  vsum; vdone
-
-theorem Device_deriv (n : ℕ) (s p : ℕ → ℝ) (i : ℕ) : Gen.Device_deriv n s p i = deviceDeriv p i := by
-  unfold Gen.Device_deriv deviceDeriv; vclose
-
-theorem Device_hess (n : ℕ) (s : ℕ → ℝ) (i j : ℕ) : Gen.Device_hess n s i j = 0 := by
-  unfold Gen.Device_hess; vclose
-
-theorem CDevice_cost (n : ℕ) (a b : ℝ) (s p : ℕ → ℝ) : Gen.CDevice_cost n a b s p = cdevCost n a b s p := by
-  unfold Gen.CDevice_cost cdevCost priceTerm
-  simp only [sumTo_eq_sum]
-  vdone
-
-theorem CDevice_deriv (n : ℕ) (a b : ℝ) (s p : ℕ → ℝ) (i : ℕ) : Gen.CDevice_deriv n a b s p i = cdevDeriv a p i := by
-  unfold Gen.CDevice_deriv cdevDeriv; vclose
-
-theorem CDevice_hess (n : ℕ) (a b : ℝ) (s : ℕ → ℝ) (i j : ℕ) : Gen.CDevice_hess n a b s i j = 0 := by
-  unfold Gen.CDevice_hess; vclose
-
-/-! ## SDevice (C01 gradient, C09 recurrences, C15 closed forms) -/
-section storage
-variable (n : ℕ) (c1 c2 c3 capacity damage_depth start reserve efficiency sustainment cl ch : ℝ) (lb hb : ℕ → ℝ)
-
--- the generated SDevice methods take the horizon and every declared field of the class
-set_option hygiene false in
-local macro:max "sd%" f:term:max : term =>
-  `($f n c1 c2 c3 capacity damage_depth start reserve efficiency sustainment cl ch lb hb)
--- the model's parameter record built from the same fields
-set_option hygiene false in
-local macro:max "Q%" : term =>
-  `((SParams.mk c1 c2 c3 capacity damage_depth start reserve efficiency sustainment : SParams ℝ))
-
-theorem SDevice_base : sd% Gen.SDevice_base = start * capacity := by
-  unfold Gen.SDevice_base; vclose
-
-theorem SDevice_charge_at (r : ℕ → ℝ) (i : ℕ) : sd% Gen.SDevice_charge_at r i = chargeAt Q% r i := by
-  unfold Gen.SDevice_charge_at chargeAt
-  simp only [utils_base_soc, utils_soc, SDevice_base]
-  vdone
-
-theorem soc_lossless (r : ℕ → ℝ) (i : ℕ) : soc 1 1 r i = sumTo (i + 1) r := by
-  unfold soc
-  vsum
-  have h1 : effPow (1 : ℝ) (r k) = 1 := by unfold effPow; split_ifs <;> simp
-  have h2 : susW (1 : ℝ) i k = 1 := by unfold susW; rw [if_pos (by omega)]; simp
-  rw [h1, h2]; ring1
-
-/-- `charge_at_lossless` is `charge_at` of the same device with efficiency and sustainment 1 -/
-theorem SDevice_charge_at_lossless (r : ℕ → ℝ) (i : ℕ) :
-    sd% Gen.SDevice_charge_at_lossless r i
-      = chargeAt (SParams.mk c1 c2 c3 capacity damage_depth start reserve 1 1) r i := by
-  unfold Gen.SDevice_charge_at_lossless chargeAt baseSoc
-  simp only [SDevice_base, soc_lossless, npow_eq_pow, one_pow]
-  have h : sumTo (i + 1) (fun k => r k) = sumTo (i + 1) r := rfl
-  vdone
-
-theorem SDevice_deep_damage_at (r : ℕ → ℝ) (i : ℕ) :
-    sd% Gen.SDevice_deep_damage_at r i = c3 * (shortfall Q% r i * shortfall Q% r i) := by
-  unfold Gen.SDevice_deep_damage_at shortfall
-  simp only [SDevice_charge_at, minimum_zero]
-  vdone
-
-theorem SDevice_deep_damage_at_deriv (r : ℕ → ℝ) (j : ℕ) :
-    sd% Gen.SDevice_deep_damage_at_deriv r j
-      = sumTo n (fun i => c3 * 2 * shortfall Q% r i * susW sustainment i j * effPow efficiency (r j)) := by
-  unfold Gen.SDevice_deep_damage_at_deriv shortfall
-  simp only [SDevice_charge_at, minimum_zero, utils_sustainment_matrix, sgnPow_eq]
-  all_goals (try first
-    | rfl
-    | (apply sumTo_congr; intro k _; vclose)
-    | (simp only [sumTo_eq_sum, Finset.mul_sum, Finset.sum_mul]; apply Finset.sum_congr rfl; intro k _; ring1))
-
-theorem SDevice_flip_cost_at (r : ℕ → ℝ) (i : ℕ) :
-    sd% Gen.SDevice_flip_cost_at r i = if i + 1 < n then c2 * (-1 : ℝ) * (r i * r (i + 1)) else 0 := by
-  unfold Gen.SDevice_flip_cost_at
-  vsplit
-
-theorem SDevice_charge_costs (r : ℕ → ℝ) (i : ℕ) : sd% Gen.SDevice_charge_costs r i = chargeCost n Q% r i := by
-  unfold Gen.SDevice_charge_costs chargeCost
-  simp only [SDevice_flip_cost_at, SDevice_deep_damage_at]
-  vsplit
-
-theorem SDevice_charge_costs_deriv (r p : ℕ → ℝ) (j : ℕ) :
-    sd% Gen.SDevice_charge_costs_deriv r j + p j = sdevDeriv n Q% r p j := by
-  unfold Gen.SDevice_charge_costs_deriv sdevDeriv
-  simp only [SDevice_deep_damage_at_deriv]
-  vsplit
-
-theorem SDevice_costv (s p : ℕ → ℝ) (i : ℕ) : sd% Gen.SDevice_costv s p i = chargeCost n Q% s i + s i * p i := by
-  unfold Gen.SDevice_costv
-  simp only [SDevice_charge_costs]
-  vdone
-
-theorem SDevice_cost (s p : ℕ → ℝ) : sd% Gen.SDevice_cost s p = sdevCost n Q% s p := by
-  unfold Gen.SDevice_cost sdevCost
-  vsum
-  simp only [SDevice_costv]
-  vdone
-
-theorem SDevice_deriv (s p : ℕ → ℝ) (j : ℕ) : sd% Gen.SDevice_deriv s p j = sdevDeriv n Q% s p j := by
-  unfold Gen.SDevice_deriv
-  first
-  | exact SDevice_charge_costs_deriv n c1 c2 c3 capacity damage_depth start reserve efficiency sustainment cl ch lb hb s p j
-  | (rw [← SDevice_charge_costs_deriv n c1 c2 c3 capacity damage_depth start reserve efficiency sustainment cl ch lb hb s p j]; ring1)
-
-/-! ## storage constraint closures (C03, C06) -/
-
-theorem SDevice_constraints_soc (r : ℕ → ℝ) (i : ℕ) : sd% Gen.SDevice_constraints_soc r i = socDot n Q% r i := by
-  unfold Gen.SDevice_constraints_soc socDot
-  simp only [SDevice_base, utils_sustainment_matrix, sgnPow_eq]
-  all_goals (try first
-    | rfl
-    | (congr 1; first | rfl | ring1 | (vsum; vdone))
-    | (congr 1 <;> first | rfl | ring1 | (vsum; vdone)))
-
-theorem SDevice_constraints_fun0 (r : ℕ → ℝ) (i : ℕ) :
-    sd% Gen.SDevice_constraints_fun0 r i = socDot n Q% r i := by
-  unfold Gen.SDevice_constraints_fun0
-  simp only [SDevice_constraints_soc]
-  vdone
-
-theorem SDevice_constraints_jac0 (r : ℕ → ℝ) (i j : ℕ) :
-    sd% Gen.SDevice_constraints_jac0 r i j = socJac Q% r i j := by
-  unfold Gen.SDevice_constraints_jac0 socJac
-  simp only [utils_sustainment_matrix, sgnPow_eq]
-  vdone
-
-theorem SDevice_constraints_fun1 (r : ℕ → ℝ) (i : ℕ) :
-    sd% Gen.SDevice_constraints_fun1 r i = capacity - socDot n Q% r i := by
-  unfold Gen.SDevice_constraints_fun1
-  simp only [SDevice_constraints_soc]
-  vdone
-
-theorem SDevice_constraints_jac1 (r : ℕ → ℝ) (i j : ℕ) :
-    sd% Gen.SDevice_constraints_jac1 r i j = (-1 : ℝ) * socJac Q% r i j := by
-  unfold Gen.SDevice_constraints_jac1 socJac
-  simp only [utils_sustainment_matrix, sgnPow_eq]
-  vdone
-
-/-- the model's per-slot state-of-charge constraint pair is exactly the four generated closures -/
-theorem SDevice_constraints_socCons (i : ℕ) :
-    socCons n Q% i =
-      [ { isEq := false, fn := fun r => sd% Gen.SDevice_constraints_fun0 r i,
-          jac := some (fun r j => sd% Gen.SDevice_constraints_jac0 r i j) },
-        { isEq := false, fn := fun r => sd% Gen.SDevice_constraints_fun1 r i,
-          jac := some (fun r j => sd% Gen.SDevice_constraints_jac1 r i j) } ] := by
-  unfold socCons
-  simp only [SDevice_constraints_fun0, SDevice_constraints_jac0, SDevice_constraints_fun1, SDevice_constraints_jac1]
-
-/-- discharge-rate clipping closure; `cl` is `rate_clip[0]`, `lb` the lower bounds -/
-theorem SDevice_constraints_fun2 (r : ℕ → ℝ) (i : ℕ) :
-    sd% Gen.SDevice_constraints_fun2 r i = (clipLoCon n Q% lb cl i).fn r := by
-  unfold Gen.SDevice_constraints_fun2 clipLoCon
-  simp only [SDevice_constraints_soc]
-  vdone
-
-/-- charge-rate clipping closure; `ch` is `rate_clip[1]`, `hb` the upper bounds -/
-theorem SDevice_constraints_fun3 (r : ℕ → ℝ) (i : ℕ) :
-    sd% Gen.SDevice_constraints_fun3 r i = (clipHiCon n Q% hb ch i).fn r := by
-  unfold Gen.SDevice_constraints_fun3 clipHiCon
-  simp only [SDevice_constraints_soc]
-  vdone
-
-theorem SDevice_constraints_fun4 (r : ℕ → ℝ) : sd% Gen.SDevice_constraints_fun4 r = (reserveCon n Q%).fn r := by
-  unfold Gen.SDevice_constraints_fun4 reserveCon
-  simp only [SDevice_constraints_soc]
-  vdone
-
-theorem SDevice_constraints_jac4 (r : ℕ → ℝ) (j : ℕ) :
-    sd% Gen.SDevice_constraints_jac4 r j = socJac Q% r (n - 1) j := by
-  unfold Gen.SDevice_constraints_jac4 socJac
-  simp only [utils_sustainment_matrix, sgnPow_eq]
-  vdone
-
-end storage
-
-/-! ## cumulative-bound closures of `Device.constraints` (C03, C06) -/
-
-theorem Device_constraints_fun0 (n : ℕ) (x : ℕ → ℝ) (l : ℝ) (s e : ℕ) :
-    Gen.Device_constraints_fun0 n x l s e = sliceSum n s e x - l := by
-  unfold Gen.Device_constraints_fun0 sliceSum; vclose
-
-theorem Device_constraints_jac0 (n : ℕ) (x : ℕ → ℝ) (s e k : ℕ) :
-    Gen.Device_constraints_jac0 n x s e k = inRange s e k := by
-  unfold Gen.Device_constraints_jac0 inRange; vsplit
-
-theorem Device_constraints_fun1 (n : ℕ) (x : ℕ → ℝ) (h : ℝ) (s e : ℕ) :
-    Gen.Device_constraints_fun1 n x h s e = h - sliceSum n s e x := by
-  unfold Gen.Device_constraints_fun1 sliceSum; vclose
-
-theorem Device_constraints_jac1 (n : ℕ) (x : ℕ → ℝ) (s e k : ℕ) :
-    Gen.Device_constraints_jac1 n x s e k = (-1 : ℝ) * inRange s e k := by
-  unfold Gen.Device_constraints_jac1 inRange; vsplit
-
-/-- the model's constraint pair of one cumulative bound is exactly the four generated closures -/
-theorem Device_constraints (n : ℕ) (cb : CBound ℝ) :
-    cboundCons n cb =
-      [ { isEq := false, fn := fun x => Gen.Device_constraints_fun0 n x cb.l cb.s cb.e,
-          jac := some (fun x k => Gen.Device_constraints_jac0 n x cb.s cb.e k) },
-        { isEq := false, fn := fun x => Gen.Device_constraints_fun1 n x cb.h cb.s cb.e,
-          jac := some (fun x k => Gen.Device_constraints_jac1 n x cb.s cb.e k) } ] := by
-  unfold cboundCons
-  simp only [Device_constraints_fun0, Device_constraints_jac0, Device_constraints_fun1, Device_constraints_jac1]
-
-/-! ## function classes over the scalar kernels; IDevice2 / IDevice (C01, C14, C15) -/
-
-theorem HLQuadraticCost_call (n : ℕ) (pl ph xl xh x : ℕ → ℝ) :
-    Gen.HLQuadraticCost_call n pl ph xl xh x = (Fn.hlq pl ph xl xh).eval n x := by
-  unfold Gen.HLQuadraticCost_call Fn.eval
-  vsum; simp only [Bridge.hlq_cost]; vdone
-
-theorem HLQuadraticCost_deriv (n : ℕ) (pl ph xl xh x : ℕ → ℝ) (i : ℕ) :
-    Gen.HLQuadraticCost_deriv n pl ph xl xh x i = (Fn.hlq pl ph xl xh).deriv n x i := by
-  unfold Gen.HLQuadraticCost_deriv Fn.deriv
-  simp only [Bridge.hlq_deriv]; vdone
-
-theorem HLQuadraticCost_hess (n : ℕ) (pl ph xl xh x : ℕ → ℝ) (i j : ℕ) :
-    Gen.HLQuadraticCost_hess n pl ph xl xh x i j = (Fn.hlq pl ph xl xh).hess n x i j := by
-  unfold Gen.HLQuadraticCost_hess Fn.hess
-  simp only [Bridge.hlq_hess]; vdone
-
-/-- a sum of `c / n` over `n` slots is `c` (the per-slot share `_cost_fn(s)/len(self)` of `costv`) -/
-theorem sumTo_share (n : ℕ) (f g : ℕ → ℝ) :
-    sumTo n (fun k => sumTo n f / (natCast' n : ℝ) + g k) = sumTo n f + sumTo n g := by
-  rw [sumTo_add, sumTo_const, natCast'_eq]
-  rcases Nat.eq_zero_or_pos n with h | h
-  · subst h; simp [sumTo]
-  · have : (n : ℝ) ≠ 0 := by exact_mod_cast (Nat.pos_iff_ne_zero.mp h)
-    field_simp
-
-theorem IDevice2_costv (n : ℕ) (pl ph lb hb s p : ℕ → ℝ) (i : ℕ) :
-    Gen.IDevice2_costv n pl ph lb hb s p i
-      = sumTo n (fun k => hlqCost (pl k) (ph k) (lb k) (hb k) (s k)) / (natCast' n : ℝ) + s i * p i := by
-  unfold Gen.IDevice2_costv
-  simp only [HLQuadraticCost_call, Fn.eval]
-  vdone
-
-theorem IDevice2_cost (n : ℕ) (pl ph lb hb s p : ℕ → ℝ) :
-    Gen.IDevice2_cost n pl ph lb hb s p = idev2Cost n pl ph lb hb s p := by
-  unfold Gen.IDevice2_cost idev2Cost priceTerm
-  simp only [IDevice2_costv]
-  rw [sumTo_share]
-
-theorem IDevice2_deriv (n : ℕ) (pl ph lb hb s p : ℕ → ℝ) (i : ℕ) :
-    Gen.IDevice2_deriv n pl ph lb hb s p i = idev2Deriv pl ph lb hb s p i := by
-  unfold Gen.IDevice2_deriv idev2Deriv
-  simp only [HLQuadraticCost_deriv, Fn.deriv]
-  vdone
-
-theorem IDevice2_hess (n : ℕ) (pl ph lb hb s : ℕ → ℝ) (i j : ℕ) :
-    Gen.IDevice2_hess n pl ph lb hb s i j = idev2Hess pl ph lb hb i j := by
-  unfold Gen.IDevice2_hess idev2Hess
-  simp only [HLQuadraticCost_hess, Fn.hess]
-  vdone
-
-section abc
-variable {ε : Type} [Sub ε] [OfNat ε 1] [OfNat ε 2] (pow : ℝ → ε → ℝ) (cast : ε → ℝ)
-
-/-- `Bridge.abc_cost` for an arbitrary exponent type (the executable model uses `Int`, the theorems `ℝ`) -/
-theorem abc_cost' (x a : ℝ) (b : ε) (c xl xh : ℝ) : Gen.abc_cost pow x a b c xl xh = abcCost pow x a b c xl xh := by
-  unfold Gen.abc_cost abcCost
-  by_cases h : xl = xh
-  · simp [h]
-  · simp only [h, if_false, Bridge.abc_q]; vdone
-
-theorem abc_deriv' (x a : ℝ) (b : ε) (c xl xh : ℝ) :
-    Gen.abc_deriv pow cast x a b c xl xh = abcDeriv pow cast x a b c xl xh := by
-  unfold Gen.abc_deriv abcDeriv
-  by_cases h : xl = xh
-  · simp [h]
-  · have hd : xh - xl ≠ 0 := sub_ne_zero.mpr (Ne.symm h)
-    simp only [h, if_false, Bridge.abc_q]; vdone
-
-theorem abc_hess' (x a : ℝ) (b : ε) (c xl xh : ℝ) :
-    Gen.abc_hess pow cast x a b c xl xh = abcHess pow cast x a b c xl xh := by
-  unfold Gen.abc_hess abcHess
-  by_cases h : xl = xh
-  · simp [h]
-  · have hd : xh - xl ≠ 0 := sub_ne_zero.mpr (Ne.symm h)
-    by_cases hb : cast b = 1
-    · simp [h, hb]
-    · simp only [h, hb, or_self, if_false, Bridge.abc_q]; vdone
-
-theorem ABCCost_call (n : ℕ) (a : ℕ → ℝ) (b : ℕ → ε) (c xl xh x : ℕ → ℝ) :
-    Gen.ABCCost_call pow n a b c xl xh x = sumTo n (fun k => abcCost pow (x k) (a k) (b k) (c k) (xl k) (xh k)) := by
-  unfold Gen.ABCCost_call
-  vsum; simp only [abc_cost']; vdone
-
-theorem ABCCost_deriv (n : ℕ) (a : ℕ → ℝ) (b : ℕ → ε) (c xl xh x : ℕ → ℝ) (i : ℕ) :
-    Gen.ABCCost_deriv pow cast n a b c xl xh x i = abcDeriv pow cast (x i) (a i) (b i) (c i) (xl i) (xh i) := by
-  unfold Gen.ABCCost_deriv
-  simp only [abc_deriv']; vdone
-
-theorem ABCCost_hess (n : ℕ) (a : ℕ → ℝ) (b : ℕ → ε) (c xl xh x : ℕ → ℝ) (i j : ℕ) :
-    Gen.ABCCost_hess pow cast n a b c xl xh x i j
-      = if i = j then abcHess pow cast (x i) (a i) (b i) (c i) (xl i) (xh i) else 0 := by
-  unfold Gen.ABCCost_hess
-  simp only [abc_hess']; vdone
-
-theorem IDevice_costv (n : ℕ) (a : ℕ → ℝ) (b : ℕ → ε) (c lb hb s p : ℕ → ℝ) (i : ℕ) :
-    Gen.IDevice_costv pow n a b c lb hb s p i
-      = sumTo n (fun k => abcCost pow (s k) (a k) (b k) (c k) (lb k) (hb k)) / (natCast' n : ℝ) + s i * p i := by
-  unfold Gen.IDevice_costv
-  simp only [ABCCost_call]
-  vdone
-
-theorem IDevice_cost (n : ℕ) (a : ℕ → ℝ) (b : ℕ → ε) (c lb hb s p : ℕ → ℝ) :
-    Gen.IDevice_cost pow n a b c lb hb s p = idevCost pow n a b c lb hb s p := by
-  unfold Gen.IDevice_cost idevCost priceTerm
-  simp only [IDevice_costv]
-  rw [sumTo_share]
-
-theorem IDevice_deriv (n : ℕ) (a : ℕ → ℝ) (b : ℕ → ε) (c lb hb s p : ℕ → ℝ) (i : ℕ) :
-    Gen.IDevice_deriv pow cast n a b c lb hb s p i = idevDeriv pow cast a b c lb hb s p i := by
-  unfold Gen.IDevice_deriv idevDeriv
-  simp only [ABCCost_deriv]
-  vdone
-
-theorem IDevice_hess (n : ℕ) (a : ℕ → ℝ) (b : ℕ → ε) (c lb hb s : ℕ → ℝ) (i j : ℕ) :
-    Gen.IDevice_hess pow cast n a b c lb hb s i j = idevHess pow cast a b c lb hb s i j := by
-  unfold Gen.IDevice_hess idevHess
-  simp only [ABCCost_hess]
-  vdone
-
-end abc
-
-/-- `ABCCost.__call__/deriv/hess` at the executable exponent type are the `Fn.abc` combinator -/
-theorem ABCCost_fn (n : ℕ) (a : ℕ → ℝ) (b : ℕ → Int) (c xl xh x : ℕ → ℝ) (i j : ℕ) :
-    Gen.ABCCost_call ipow n a b c xl xh x = (Fn.abc a b c xl xh).eval n x
-    ∧ Gen.ABCCost_deriv ipow intCast' n a b c xl xh x i = (Fn.abc a b c xl xh).deriv n x i
-    ∧ Gen.ABCCost_hess ipow intCast' n a b c xl xh x i j = (Fn.abc a b c xl xh).hess n x i j := by
-  refine ⟨?_, ?_, ?_⟩
-  · rw [ABCCost_call]; rfl
-  · rw [ABCCost_deriv]; rfl
-  · rw [ABCCost_hess]; rfl
-
-/-! ## TDevice (C01, C09, C15) -/
-section thermal
-variable (n : ℕ) (sustainment efficiency t_init t_optimal t_range : ℝ) (t_external c : ℕ → ℝ)
-
-set_option hygiene false in
-local macro:max "td%" f:term:max : term => `($f n sustainment efficiency t_init t_optimal t_range t_external c)
-set_option hygiene false in
-local macro:max "T%" : term =>
-  `((TParams.mk sustainment efficiency t_init t_optimal t_range t_external c : TParams ℝ))
-
-theorem TDevice_make_t_base (te : ℕ → ℝ) (sus ti : ℝ) (i : ℕ) :
-    td% Gen.TDevice_make_t_base te sus ti i = baseSoc ti sus i + (1 - sus) * soc sus 1 te i := by
-  unfold Gen.TDevice_make_t_base
-  simp only [utils_base_soc, utils_soc]
-  vdone
-
-/-- `t_base` as the constructor computes it -/
-theorem TDevice_t_base (i : ℕ) : td% Gen.TDevice_make_t_base t_external sustainment t_init i = tBase T% i := by
-  rw [TDevice_make_t_base]; rfl
-
-theorem TDevice_r2t (r : ℕ → ℝ) (i : ℕ) : td% Gen.TDevice_r2t r i = r2t T% r i := by
-  unfold Gen.TDevice_r2t r2t
-  simp only [TDevice_t_base, utils_soc]
-  vdone
-
-theorem TDevice_costv_t (t : ℕ → ℝ) :
-    td% (Gen.TDevice_costv_t ipow) t = sumTo n (fun i => tSlotCost T% (t i) i) := by
-  unfold Gen.TDevice_costv_t tSlotCost
-  simp only [ABCCost_call]
-  vdone
-
-theorem TDevice_deriv_t (t : ℕ → ℝ) (i : ℕ) :
-    td% (Gen.TDevice_deriv_t ipow intCast') t i = tSlotDeriv T% (t i) i := by
-  unfold Gen.TDevice_deriv_t tSlotDeriv
-  simp only [ABCCost_deriv]
-  vdone
-
-theorem TDevice_costv (s p : ℕ → ℝ) (i : ℕ) :
-    td% (Gen.TDevice_costv ipow) s p i
-      = sumTo n (fun k => tSlotCost T% (r2t T% s k) k) / (natCast' n : ℝ) + s i * p i := by
-  unfold Gen.TDevice_costv
-  simp only [TDevice_costv_t, TDevice_r2t]
-  vdone
-
-theorem TDevice_cost (s p : ℕ → ℝ) : td% (Gen.TDevice_cost ipow) s p = tdevCost n T% s p := by
-  unfold Gen.TDevice_cost tdevCost priceTerm
-  simp only [TDevice_costv]
-  rw [sumTo_share]
-
-theorem TDevice_deriv (s p : ℕ → ℝ) (j : ℕ) :
-    td% (Gen.TDevice_deriv ipow intCast') s p j = tdevDeriv n T% s p j := by
-  unfold Gen.TDevice_deriv tdevDeriv
-  simp only [TDevice_deriv_t, TDevice_r2t, utils_sustainment_matrix]
-  vdone
-
-end thermal
-
-/-! ## combinators of functions.py (the wrapped function object is a parameter) -/
-
-theorem NullFunction_call (n : ℕ) (x : ℕ → ℝ) : Gen.NullFunction_call n x = (Fn.null : Fn ℝ).eval n x := by
-  unfold Gen.NullFunction_call Fn.eval; vclose
-
-theorem NullFunction_deriv (n : ℕ) (x : ℕ → ℝ) (i : ℕ) : Gen.NullFunction_deriv n x i = (Fn.null : Fn ℝ).deriv n x i := by
-  unfold Gen.NullFunction_deriv Fn.deriv; vclose
-
-theorem NullFunction_hess (n : ℕ) (x : ℕ → ℝ) (i j : ℕ) : Gen.NullFunction_hess n x i j = (Fn.null : Fn ℝ).hess n x i j := by
-  unfold Gen.NullFunction_hess Fn.hess; vclose
-
-/-- replace the argument of a function of the flow by the pointwise equal reflected flow -/
-theorem refl_arg {β : Type} (F : (ℕ → ℝ) → β) (x g : ℕ → ℝ) (h : ∀ k, g k = - x k) : F g = F (fun k => - x k) := by
-  rw [funext h]
-
-theorem ReflectedFunction_call (n : ℕ) (f : Fn ℝ) (x : ℕ → ℝ) :
-    Gen.ReflectedFunction_call n f.eval f.deriv f.hess x = (Fn.reflect f).eval n x := by
-  unfold Gen.ReflectedFunction_call
-  rw [Fn.eval, refl_arg (fun g => f.eval n g) x]
-  intro k; ring1
-
-theorem ReflectedFunction_deriv (n : ℕ) (f : Fn ℝ) (x : ℕ → ℝ) (i : ℕ) :
-    Gen.ReflectedFunction_deriv n f.eval f.deriv f.hess x i = (Fn.reflect f).deriv n x i := by
-  unfold Gen.ReflectedFunction_deriv
-  rw [Fn.deriv, refl_arg (fun g => f.deriv n g i) x]
-  · vdone
-  · intro k; ring1
-
-theorem ReflectedFunction_hess (n : ℕ) (f : Fn ℝ) (x : ℕ → ℝ) (i j : ℕ) :
-    Gen.ReflectedFunction_hess n f.eval f.deriv f.hess x i j = (Fn.reflect f).hess n x i j := by
-  unfold Gen.ReflectedFunction_hess
-  rw [Fn.hess, refl_arg (fun g => f.hess n g i j) x]
-  intro k; ring1
-
-theorem InnerSumFunction_call (n : ℕ) (pl ph xl xh : ℝ) (x : ℕ → ℝ) :
-    Gen.InnerSumFunction_call n (hlqCost pl ph xl xh) (hlqDeriv pl ph xl xh) (fun _ => hlqHess pl ph xl xh) x
-      = (Fn.innerHlq pl ph xl xh).eval n x := by
-  unfold Gen.InnerSumFunction_call Fn.eval; vclose
-
-theorem InnerSumFunction_deriv (n : ℕ) (pl ph xl xh : ℝ) (x : ℕ → ℝ) (i : ℕ) :
-    Gen.InnerSumFunction_deriv n (hlqCost pl ph xl xh) (hlqDeriv pl ph xl xh) (fun _ => hlqHess pl ph xl xh) x i
-      = (Fn.innerHlq pl ph xl xh).deriv n x i := by
-  unfold Gen.InnerSumFunction_deriv Fn.deriv
-  have h : sumTo n (fun k => x k) = sumTo n x := rfl
-  vdone
-
-theorem InnerSumFunction_hess (n : ℕ) (pl ph xl xh : ℝ) (x : ℕ → ℝ) (i j : ℕ) :
-    Gen.InnerSumFunction_hess n (hlqCost pl ph xl xh) (hlqDeriv pl ph xl xh) (fun _ => hlqHess pl ph xl xh) x i j
-      = (Fn.innerHlq pl ph xl xh).hess n x i j := by
-  unfold Gen.InnerSumFunction_hess Fn.hess; vclose
-
-/-! ## Poly2D / Poly2DOffset: value (`vector`, `__call__`); their cached derivative objects are T2-only -/
-
-theorem Poly2D_vector (n : ℕ) (cs : ℕ → List ℝ) (x : ℕ → ℝ) (i : ℕ) :
-    Gen.Poly2D_vector n cs x i = polyEval (cs i) (x i + 0) := by
-  unfold Gen.Poly2D_vector
-  simp only [add_zero]
-  vdone
-
-theorem Poly2D_call (n : ℕ) (cs : ℕ → List ℝ) (x : ℕ → ℝ) :
-    Gen.Poly2D_call n cs x = (Fn.poly cs (fun _ => 0)).eval n x := by
-  unfold Gen.Poly2D_call Fn.eval
-  vsum
-  simp only [Poly2D_vector]
-  vdone
-
-theorem Poly2DOffset_vector (n : ℕ) (cs : ℕ → List ℝ) (off x : ℕ → ℝ) (i : ℕ) :
-    Gen.Poly2DOffset_vector n cs off x i = polyEval (cs i) (x i + off i) := by
-  unfold Gen.Poly2DOffset_vector
-  first | rfl | (congr 1; ring1)
-
-theorem Poly2DOffset_call (n : ℕ) (cs : ℕ → List ℝ) (off x : ℕ → ℝ) :
-    Gen.Poly2DOffset_call n cs off x = (Fn.poly cs off).eval n x := by
-  unfold Gen.Poly2DOffset_call Fn.eval
-  vsum
-  simp only [Poly2DOffset_vector]
-  vdone
-
-/-! ## GDevice / CDevice2: the wrappers around a function object built elsewhere (C01, C08, C14)
-
-`GDevice.cost_coeffs` (setter) and `CDevice2.__init__` build the callables; that construction is outside the T1v subset
-(tied by T2).  What is tied here: the sign conventions (`-s`, `p - …`), the price term and the diagonal embedding. -/
-
-/-- the per-slot polynomial callables `cost_coeffs` installs, as the model reads them -/
-def polyFn (cs : ℕ → List ℝ) : ℕ → (ℕ → ℝ) → ℕ → ℝ := fun _ x k => polyEval (cs k) (x k)
-
-theorem GDevice_cost (n : ℕ) (cs : ℕ → List ℝ) (f1 f2 : ℕ → (ℕ → ℝ) → ℕ → ℝ) (s p : ℕ → ℝ) :
-    Gen.GDevice_cost n (polyFn cs) f1 f2 s p = gdevCost n cs s p := by
-  unfold Gen.GDevice_cost gdevCost
-  vsum
-  unfold Gen.GDevice_costv polyFn
-  vdone
-
-theorem GDevice_deriv (n : ℕ) (cs : ℕ → List ℝ) (f0 f2 : ℕ → (ℕ → ℝ) → ℕ → ℝ) (s p : ℕ → ℝ) (i : ℕ) :
-    Gen.GDevice_deriv n f0 (polyFn (fun k => polyDer (cs k))) f2 s p i = gdevDeriv cs s p i := by
-  unfold Gen.GDevice_deriv gdevDeriv polyFn
-  vdone
-
-theorem GDevice_hess (n : ℕ) (cs : ℕ → List ℝ) (f0 f1 : ℕ → (ℕ → ℝ) → ℕ → ℝ) (s : ℕ → ℝ) (i j : ℕ) :
-    Gen.GDevice_hess n f0 f1 (polyFn (fun k => polyDer (polyDer (cs k)))) s i j = gdevHess cs s i j := by
-  unfold Gen.GDevice_hess gdevHess polyFn
-  vdone
-
-theorem CDevice2_cost (n : ℕ) (pl ph : ℝ) (cbs : List (CBound ℝ)) (fd : ℕ → (ℕ → ℝ) → ℕ → ℝ)
-    (fh : ℕ → (ℕ → ℝ) → ℕ → ℕ → ℝ) (s p : ℕ → ℝ) :
-    Gen.CDevice2_cost n (fun m x => cdev2Fn m pl ph cbs x) fd fh s p = cdev2Cost n pl ph cbs s p := by
-  unfold Gen.CDevice2_cost cdev2Cost priceTerm
-  vdone
-
-theorem CDevice2_deriv (n : ℕ) (pl ph : ℝ) (cbs : List (CBound ℝ)) (fc : ℕ → (ℕ → ℝ) → ℝ)
-    (fh : ℕ → (ℕ → ℝ) → ℕ → ℕ → ℝ) (s p : ℕ → ℝ) (i : ℕ) :
-    Gen.CDevice2_deriv n fc (fun m x k => cdev2Slope m pl ph cbs x k) fh s p i = cdev2Deriv n pl ph cbs s p i := by
-  unfold Gen.CDevice2_deriv cdev2Deriv
-  vdone
-
-theorem CDevice2_hess (n : ℕ) (pl ph : ℝ) (cbs : List (CBound ℝ)) (fc : ℕ → (ℕ → ℝ) → ℝ)
-    (fd : ℕ → (ℕ → ℝ) → ℕ → ℝ) (s : ℕ → ℝ) (i j : ℕ) :
-    Gen.CDevice2_hess n fc fd (fun _ _ a b => cdev2Hess pl ph cbs a b) s i j = cdev2Hess pl ph cbs i j := by
-  unfold Gen.CDevice2_hess
-  vdone
-
-end DK.BridgeVec
